@@ -24,7 +24,7 @@ for pid in ["C%02d" % i for i in range(1, 21)]:
         continue
     notes = open(os.path.join(out, "notes.md")).read() if os.path.exists(os.path.join(out, "notes.md")) else ""
     secs = re.split(r"\n(?=##+ +(?:Change|change|Mutant|Seeded change|\d+[.)]))", notes)
-    for k in (1, 2, 3):
+    for k in (1, 2, 3):  # k-th change of the round
         mid = "%s-%d" % (pid, k + OFF)
         diff = os.path.join(out, "change%d.diff" % k)
         demo = os.path.join(out, "demo%d.rs" % k)
